@@ -472,6 +472,8 @@ def op_fieldmap(case):
     try:
         for ci, c in enumerate(case["cases"]):
             res = {}
+            # half of the cases are written with non-ASCII characters as they are (UTF-8), half with \\uXXXX escapes
+            raw_ascii = ci % 2 == 0
             # file layouts: one pretty-printed file per document (whole-file mode); one line per document in one file
             # (per-line mode), the same followed by an empty line, the same without a final newline, and one
             # single-line file per document read in per-line mode
@@ -481,28 +483,28 @@ def op_fieldmap(case):
                 try:
                     if mode == "whole":
                         for k, doc in enumerate(c["docs"]):
-                            with open(os.path.join(d, "f%03d.json" % k), "w") as fh:
-                                json.dump(doc, fh, indent=2)
+                            with open(os.path.join(d, "f%03d.json" % k), "w", encoding="utf-8") as fh:
+                                json.dump(doc, fh, indent=2, ensure_ascii=raw_ascii)
                     elif mode == "whole-nested":
                         # the directory is searched recursively: documents spread over nested sub-directories
                         for k, doc in enumerate(c["docs"]):
                             sub = os.path.join(d, *(["sub%d" % j for j in range(k % 3)]))
                             os.makedirs(sub, exist_ok=True)
-                            with open(os.path.join(sub, "f%03d.json" % k), "w") as fh:
-                                json.dump(doc, fh)
+                            with open(os.path.join(sub, "f%03d.json" % k), "w", encoding="utf-8") as fh:
+                                json.dump(doc, fh, ensure_ascii=raw_ascii)
                     elif mode == "whole-filepath":
                         # a single file given by `filepath` instead of a directory (all documents of the case must
                         # then be one document: the harness only asks for this layout when there is exactly one)
-                        with open(os.path.join(d, "only.json"), "w") as fh:
-                            json.dump(c["docs"][0], fh, indent=1)
+                        with open(os.path.join(d, "only.json"), "w", encoding="utf-8") as fh:
+                            json.dump(c["docs"][0], fh, indent=1, ensure_ascii=raw_ascii)
                     elif mode == "lines-files":
                         for k, doc in enumerate(c["docs"]):
-                            with open(os.path.join(d, "f%03d.json" % k), "w") as fh:
-                                fh.write(json.dumps(doc) + "\n")
+                            with open(os.path.join(d, "f%03d.json" % k), "w", encoding="utf-8") as fh:
+                                fh.write(json.dumps(doc, ensure_ascii=raw_ascii) + "\n")
                     else:
-                        text = "\n".join(json.dumps(doc) for doc in c["docs"])
+                        text = "\n".join(json.dumps(doc, ensure_ascii=raw_ascii) for doc in c["docs"])
                         text += {"lines": "\n", "lines-blank-end": "\n\n", "lines-no-newline": ""}[mode]
-                        with open(os.path.join(d, "all.jsonl"), "w") as fh:
+                        with open(os.path.join(d, "all.jsonl"), "w", encoding="utf-8") as fh:
                             fh.write(text)
                     cfg = JSONDataSourceConfig(filepath=os.path.join(d, "only.json") if mode == "whole-filepath" else None,
                                                dirpath=None if mode == "whole-filepath" else d,
